@@ -72,6 +72,12 @@ def explicit(tier, seed):
                             {"resp_page": 1}, {"resp_page": 2, "first_page": 1, "page_size": 2}, {"resp_page": 1}])
         pat = {"p": "crash_enum", "max_points": 14} if i % 4 == 0 else {"p": "plain"}
         c = {"label": "seq-logs", "prog": prog, "prog_seed": 11000 + i + seed * 1000, "pages": pages, "pattern": pat}
+        if i % 2:
+            # the history handed to an invocation leaves out the descendants of completed contexts (their outcome is on the context's record)
+            from dw.program import default_world
+
+            c["label"] = "seq-logs-pruned-history"
+            c["world"] = dict(default_world(prog, random.Random(11000 + i)), prune_completed=True)
         if i % 3 == 1:
             c["opts"] = {"perturb": {"p": 0.05, "seed": i, "files": ["state.py", "context.py", "logger.py"]}}
         elif i % 3 == 2:
@@ -137,7 +143,7 @@ SPEC = Spec(
     rule="sequential programs with a log call before/after every unit (steps, steps that log inside, waits, caught failing steps, child "
     "contexts with inner logs/steps/waits, callbacks, wait_for_callback, wait_for_condition, invoke, map/parallel as units) x every "
     "prefix of completed operations that the forced suspensions and enumerated crash points leave behind x splits of the history "
-    "between the event payload and later pages; plus programs in which an operation that is still outstanding (a callback created first and awaited last) precedes the completed ones in program order, resumed several times (first page holding 0,1,2,3.. operations, page sizes 1-100), and paginated checkpoint RESPONSES (1-2 operations per page) in the middle of new work. A third of the runs are served by one warm process. A capturing LoggerInterface "
+    "between the event payload and later pages; plus programs in which an operation that is still outstanding (a callback created first and awaited last) precedes the completed ones in program order, resumed several times (first page holding 0,1,2,3.. operations, page sizes 1-100), and paginated checkpoint RESPONSES (1-2 operations per page) in the middle of new work. A third of the runs are served by one warm process; in half of them the history handed to an invocation omits the descendants of completed contexts. A capturing LoggerInterface "
     "installed with set_logger tags records with the invocation. Oracle: a log call at program position p in an invocation whose "
     "history contains a completed operation after p must be silent, every other call must be emitted (all of them in a first "
     "invocation), and emitted records carry executionArn plus parentId / operationId / operationName / attempt of the enclosing "
